@@ -291,23 +291,27 @@ def fragment_correspondence(ctx: fw.Ctx):
         reqs.append(["norm", sx])
     replies = ctx.driver.ask_many(reqs)
     bad = 0
-    hyp = {"inputs": 0, "orderOk": 0, "beforeFlatB": 0, "safe": 0, "spacing_nf": 0, "tokens": 0}
+    hyp = {"inputs": 0, "orderOk": 0, "beforeFlatB": 0, "safe": 0, "spacing_nf": 0, "tokens": 0,
+           "basic": 0, "nonbasic_spacing_nf": 0}
     for k, (origin, text, tree) in enumerate(texts):
         got, pieces, flat, facts, norm = (replies[5 * k + n] for n in range(5))
         if facts and facts[0] == "ok":
             # the decidable hypotheses / conclusions of the fragment theorems on this input, evaluated by
             # the compiled model: C01.frag_tokens_preserved and frag_safe have no exclusion (whole fragment,
-            # parentheses and calls included), C18.frag_spacing_nf holds under beforeFlatB (whole fragment).
-            # An instance contradicting a theorem means the driver does not run the model the theorems
-            # are about.
-            o_ok, clean, safe, nf, tk = (x == "t" for x in facts[1:6])
+            # parentheses, calls and `with` included), C18.frag_spacing_nf holds under beforeFlatB for the
+            # part without `with` (`File.basic`). An instance contradicting a theorem means the driver does
+            # not run the model the theorems are about. For files with `with` the spacing conclusion is
+            # only counted (not proved yet).
+            o_ok, clean, safe, nf, tk, basic = (x == "t" for x in facts[1:7])
             hyp["inputs"] += 1
             hyp["orderOk"] += o_ok
             hyp["beforeFlatB"] += clean
             hyp["safe"] += safe
             hyp["spacing_nf"] += nf
             hyp["tokens"] += tk
-            if not safe or not tk or (clean and not nf):
+            hyp["basic"] += basic
+            hyp["nonbasic_spacing_nf"] += (not basic) and nf
+            if not safe or not tk or (basic and clean and not nf):
                 bad += 1
                 if bad <= 5:
                     ctx.tie_break("theorem-instance", "the compiled model contradicts a fragment theorem on this input",
@@ -352,6 +356,12 @@ def fragment_correspondence(ctx: fw.Ctx):
                 if bad <= 5:
                     ctx.tie_break("parser-contract", "File.norm f is not the tree tree-sitter returns for the output",
                                   request={"text": text}, implementation=real_tree, model=norm[2])
+        if pieces and pieces[0] == "uncovered":
+            # inside what the string-level model covers (`File.modelled`: `assert`, comments in the inner gaps of
+            # `with` / `assert`) but outside the theorems' fragment (`File.wf`): the round trip was compared, the
+            # piece-level statements do not apply
+            cov["model_only"] = cov.get("model_only", 0) + 1
+            continue
         if not pieces or pieces[0] != "ok":
             bad += 1
             if bad <= 5:
